@@ -403,6 +403,7 @@ func (w *World) checkCacheUpdate(r *Report, fn *ssa.Function, mu *ssa.MapUpdate,
 	// classify what the written entry can be: through phis and locals down to lookups under a
 	// key, entry-building helpers, and locals filled field by field
 	var fromLookup, fromHelper, other int
+	missRead := ""
 	lookupKeyOK := true
 	impure := ""
 	nLookupStores := 0
@@ -424,6 +425,31 @@ func (w *World) checkCacheUpdate(r *Report, fn *ssa.Function, mu *ssa.MapUpdate,
 				fromLookup++
 				if !k.sameKey(x.Index) {
 					lookupKeyOK = false
+				}
+				// the read must have been a hit: a comma-ok lookup whose true edge dominates the
+				// write (a plain m[key] yields the zero entry for a key that was never stored or
+				// has just been evicted, and storing that back caches "no such member")
+				isHit := false
+				if x.CommaOk && x.Referrers() != nil {
+					for _, ref := range *x.Referrers() {
+						ex, ok := ref.(*ssa.Extract)
+						if !ok || ex.Index != 1 || ex.Referrers() == nil {
+							continue
+						}
+						for _, b := range fn.Blocks {
+							cv, trueIdx, ok := ifCond(b)
+							if !ok || cv != ssa.Value(ex) {
+								continue
+							}
+							t := b.Succs[trueIdx]
+							if len(t.Preds) == 1 && (t == mu.Block() || t.Dominates(mu.Block())) {
+								isHit = true
+							}
+						}
+					}
+				}
+				if !isHit {
+					missRead = w.posOf(x.Pos())
 				}
 				return
 			}
@@ -495,6 +521,8 @@ func (w *World) checkCacheUpdate(r *Report, fn *ssa.Function, mu *ssa.MapUpdate,
 	classify(mu.Value, mu)
 	inserts := nLookupStores > 0 || fromHelper > 0
 	switch {
+	case fromLookup > 0 && !inserts && lookupKeyOK && missRead != "":
+		r.bad("R20.4", ssaName(fn), "write to the cache map (statistics update)", pos, "the entry stored back was read at "+missRead+" without establishing that the key was present (no comma-ok test whose true edge dominates this write): for a key that is absent at that moment — never stored, or evicted a moment ago — the zero entry is written, and every later lookup of that attribute on that type finds \"neither field nor method\"")
 	case fromLookup > 0 && !inserts && lookupKeyOK:
 		r.ok("R20.4", ssaName(fn), "write to the cache map (statistics update)", pos, "entry read under the same key, only statistics fields assigned, stored back under the same key", true)
 	case fromLookup > 0 && !inserts:
